@@ -173,7 +173,8 @@ CHECKS["C09"] = {
                   "DECLINED/STOP/ERROR per history up to the deviation depth) and of every schedule of the C04 / C16 interleaving workloads: return code in the documented set, DATA => whole "
                   "chunk consumed, DATA_OTHER => strictly fewer bytes and the driver resumes exactly at the reported count (C04/C16 oracles would see a skipped or repeated byte), byte "
                   "counters advance by the bytes offered, ERROR/STOP sticky for later data calls with no parsing callbacks, and no DATA_OTHER ping-pong when draining both remainders.",
-    "level_note": "What htp_connp_close() does after STOP, and data calls issued after the caller closed a direction, are outside the statement. Calls short-circuited by a sticky state may or "
+    "level_note": "A direction that reported ERROR stays judged across htp_connp_close() (no callbacks of that direction during close, ERROR on later data calls: the code guards exactly this). What "
+                  "htp_connp_close() does after STOP, and data calls on a healthy direction after the caller closed it, are outside the statement. Calls short-circuited by a sticky state may or "
                   "may not advance the byte counters (the code counts after the guards).",
     "design_ref": "DESIGN.md §6 C09",
     "rule": _STATEMC_RULE + "; plus cutmc pair/tunnel schedules" + _EDITS_RULE,
